@@ -364,12 +364,74 @@ def graddrop(index, ctx, A, by_class):
                         f"mask `{norm_text(ms[0].value)}` is not equivalent to (s > U)·(row > 0) + (s < U)·(row < 0): {why_mask}", _loc(fi, ms[0]))
 
 
+def _straighten_vectorised(fn):
+    """The loop-free form with the leak applied in an `if self.leak is not None:` block, read as the straight-line code of the case in which a
+    leak is given: the block's statements in place, names bound more than once numbered (`mask`, `mask__2`), dtype/device conversions dropped,
+    `torch.lerp(a, b, w)` spelt `a + w * (b - a)`, `ones_like(x)` / `zeros_like(x)` spelt 1 / 0. Returns a rewritten deep copy."""
+    import copy as _cp
+
+    fn = _cp.deepcopy(fn)
+
+    def is_leak_test(t):
+        return isinstance(t, ast.Compare) and len(t.ops) == 1 and isinstance(t.ops[0], ast.IsNot) and isinstance(t.comparators[0], ast.Constant) and t.comparators[0].value is None \
+            and "leak" in norm_text(t.left)
+
+    body = []
+    for st in fn.body:
+        if isinstance(st, ast.If) and is_leak_test(st.test) and not any(isinstance(x, (ast.For, ast.While, ast.Return)) for x in ast.walk(st)):
+            body.extend(st.body)
+        else:
+            body.append(st)
+
+    class Simplify(ast.NodeTransformer):
+        def visit_Call(self, n):
+            self.generic_visit(n)
+            f = n.func
+            if isinstance(f, ast.Attribute) and f.attr in ("to", "float", "double", "type_as", "contiguous", "clone") and not (isinstance(f.value, ast.Name) and f.value.id == "torch"):
+                return f.value
+            t = norm_text(f)
+            if t == "torch.lerp" and len(n.args) == 3:
+                a, b, w = n.args
+                return ast.BinOp(left=a, op=ast.Add(), right=ast.BinOp(left=w, op=ast.Mult(), right=ast.BinOp(left=b, op=ast.Sub(), right=_cp.deepcopy(a))))
+            if t in ("torch.ones_like", "torch.zeros_like") and n.args:
+                return ast.Constant(value=1 if t.endswith("ones_like") else 0)
+            return n
+
+    body = [Simplify().visit(st) for st in body]
+    # number the re-bindings of top-level names (straight-line code: every load reads the latest binding)
+    count, cur = {}, {}
+
+    class Ren(ast.NodeTransformer):
+        def visit_Name(self, n):
+            if isinstance(n.ctx, ast.Load) and n.id in cur:
+                return ast.copy_location(ast.Name(id=cur[n.id], ctx=n.ctx), n)
+            return n
+
+    out = []
+    for st in body:
+        if isinstance(st, ast.Assign) and len(st.targets) == 1 and isinstance(st.targets[0], ast.Name):
+            nm = st.targets[0].id
+            st.value = Ren().visit(st.value)
+            count[nm] = count.get(nm, 0) + 1
+            if count[nm] > 1:
+                cur[nm] = f"{nm}__{count[nm]}"
+                st.targets[0] = ast.Name(id=cur[nm], ctx=ast.Store())
+            out.append(st)
+        elif not any(isinstance(x, (ast.For, ast.While, ast.If, ast.With, ast.Try)) for x in [st]):
+            out.append(Ren().visit(st))
+        else:
+            out.append(st)
+    fn.body = out
+    return ast.fix_missing_locations(fn)
+
+
 def graddrop_vectorised(ctx, fi, fn, ok_draw) -> bool:
     """The loop over rows written as one expression over the whole matrix: `((L + (1 - L) * M) * matrix).sum(dim=0)` with M the
     m x n mask and L the leak vector broadcast along the columns (`leak.unsqueeze(1)`, `leak[:, None]`, `leak.view(-1, 1)`).
     Returns False when the code is not of this shape (nothing reported)."""
     from ..astutil import inline_locals
 
+    fn = _straighten_vectorised(fn)
     mparam = next((a_.arg for a_ in fn.args.args if a_.arg != "self"), "matrix")
     sums = [c for c in ast.walk(fn) if isinstance(c, ast.Call) and ((isinstance(c.func, ast.Attribute) and c.func.attr == "sum" and not (isinstance(c.func.value, ast.Name) and c.func.value.id == "torch"))
                                                                     or norm_text(c.func) == "torch.sum")]
